@@ -7,6 +7,7 @@ rules).  The workload forces degrees (0, 1, NaN, +-inf, batches) through a stub 
 conclusions (metamorphic: contributions are independent of the order)."""
 from __future__ import annotations
 
+import copy
 import itertools
 import math
 
@@ -48,6 +49,7 @@ class ConsequentMonitor:
         self.ctx, self.fl = ctx, fl
         self.H = W.Oracle(fl).H
         self.setter_calls = 0
+        self.engine_of = {}  # id(rule) -> engine the workload says the rule belongs to (its output variables are the ones meant)
 
     def install(self, probe):
         fl = self.fl
@@ -66,9 +68,13 @@ class ConsequentMonitor:
         if not rule.is_loaded():
             return None
         outs = {}
+        owner = self.engine_of.get(id(rule))
         for c in rule.consequent.conclusions:
             if c.variable is not None and hasattr(c.variable, "fuzzy"):
-                outs.setdefault(c.variable.name, c.variable)
+                mine = next((v for v in owner.output_variables if v.name == c.variable.name), None) if owner is not None else None
+                if mine is not None and mine is not c.variable:
+                    self.ctx.hit("event:a conclusion is bound to a variable object outside its engine")
+                outs.setdefault(c.variable.name, mine if mine is not None else c.variable)
         return {"outs": outs, "before": {n: list(v.fuzzy.terms) for n, v in outs.items()}, "degree": np.array(rule.activation_degree, dtype=float, copy=True), "enabled": bool(rule.enabled)}
 
     def _after(self, args, kwargs, st, result, exc):
@@ -141,7 +147,7 @@ class ConsequentMonitor:
                 if hs:
                     ctx.hit("piece:hedged conclusion")
                 dd = np.asarray(deg, dtype=float)
-                ctx.hit(f"degree:{'batch' if dd.size > 1 else 'nan' if math.isnan(float(dd)) else 'inf' if math.isinf(float(dd)) else 'zero' if float(dd) == 0 else 'one' if float(dd) == 1 else 'partial'}")
+                ctx.hit(f"degree:{'grid' if dd.ndim > 1 else 'batch' if dd.size > 1 else 'nan' if math.isnan(float(dd)) else 'inf' if math.isinf(float(dd)) else 'zero' if float(dd) == 0 else 'one' if float(dd) == 1 else 'partial'}")
         if len(concl) > 1 and st["enabled"] and any(hs for _, hs, _ in concl[:-1]):
             ctx.nontrivial(rule.consequent.text, tuple(np.asarray(deg, dtype=float).ravel().tolist()), tuple(sorted(case["variables_enabled"].items())))
             ctx.hit("piece:hedge on an earlier conclusion of several")
@@ -164,7 +170,10 @@ def degrees(rnd):
         return rnd.choice([0.0, 1.0, 0.25, 0.5, rnd.random(), rnd.random()])
     if c < 0.6:
         return rnd.choice([nan, inf, -inf])
-    return np.array([rnd.choice([0.0, 1.0, nan, inf, -inf, rnd.random(), rnd.random()]) for _ in range(rnd.choice([2, 3, 5]))])
+    batch = np.array([rnd.choice([0.0, 1.0, nan, inf, -inf, rnd.random(), rnd.random()]) for _ in range(rnd.choice([2, 3, 5, 6, 6]))])
+    if batch.size == 6 and rnd.random() < 0.6:
+        return batch.reshape(rnd.choice([(2, 3), (3, 2), (6, 1), (1, 6)]))  # a grid of degrees (inputs given as a mesh)
+    return batch
 
 
 def run(ctx):
@@ -198,8 +207,18 @@ def run(ctx):
                     ctx.violation(f"a grammatical consequent is rejected ({type(ex).__name__})", {"rule": text}, "loaded", repr(ex)[:200])
                     break
                 rule.enabled = enabled
+                target = engine
+                if i % 4 == 0:
+                    # the rule as it arrives in a duplicate of its engine: it concludes on the duplicate's variables
+                    how = ("copy", "deepcopy")[(i // 4) % 2]
+                    engine.rule_blocks[:] = [fl.RuleBlock("rb", rules=[rule])]
+                    target = engine.copy() if how == "copy" else copy.deepcopy(engine)
+                    rule = target.rule_blocks[0].rules[0]
+                    engine.rule_blocks.clear()
+                    ctx.hit("route:rule of a duplicated engine (" + how + ")")
+                mon.engine_of = {id(rule): target}
                 for di, d in enumerate(degs):
-                    for ov in engine.output_variables:
+                    for ov in engine.output_variables + (target.output_variables if target is not engine else []):
                         ov.fuzzy.clear()
                     rule.activation_degree = fl.scalar(d)  # stub antecedent degree
                     try:
@@ -207,7 +226,7 @@ def run(ctx):
                     except Exception as ex:
                         ctx.violation(f"trigger raised {type(ex).__name__} on a loaded rule", {"rule": text, "degree": d}, "no error", repr(ex)[:200])
                         continue
-                    got = {ov.name: sorted((a.term.name, tuple(np.asarray(a.degree, dtype=float).ravel().tolist())) for a in ov.fuzzy.terms) for ov in engine.output_variables}
+                    got = {ov.name: sorted((a.term.name, tuple(np.asarray(a.degree, dtype=float).ravel().tolist())) for a in ov.fuzzy.terms) for ov in target.output_variables}
                     key = di
                     if key in results and results[key] != got:
                         ctx.violation("reordering the conclusions of a rule changes what they contribute", {"rule": text, "degree": d, "order": list(perm)}, results[key], got)
@@ -218,7 +237,7 @@ def run(ctx):
                 ctx.sample("consequent", {"rule": text, "rule_enabled": enabled, "degrees": degs, "contributions": results.get(0)})
         probe.report(ctx)
         reach.report(ctx)
-    ctx.require("hook:Rule.trigger", "hook:Consequent.modify", "hook:Activated.degree.setter", "compare:appended terms", "law:permutation", "piece:disabled rule", "piece:conclusion on a disabled variable", "piece:hedged conclusion", "piece:hedge on an earlier conclusion of several", "degree:batch", "degree:nan", "degree:inf", "degree:zero", "degree:partial")
+    ctx.require("hook:Rule.trigger", "hook:Consequent.modify", "hook:Activated.degree.setter", "compare:appended terms", "law:permutation", "piece:disabled rule", "piece:conclusion on a disabled variable", "piece:hedged conclusion", "piece:hedge on an earlier conclusion of several", "degree:batch", "degree:grid", "route:rule of a duplicated engine (copy)", "route:rule of a duplicated engine (deepcopy)", "degree:nan", "degree:inf", "degree:zero", "degree:partial")
 
 
 def passive(ctx, fl, probe):
